@@ -866,6 +866,7 @@ def adapt_typehints(
             is_ellipsis = is_ellipsis_tuple(typehint)
             if is_tuple and not is_ellipsis and len(val) != len(subtypehints):
                 raise_unexpected_value(f"Expected a tuple with {len(subtypehints)} elements", val)
+            adapt_kwargs["orig_val"] = None  # the original string is the one of the whole value, not of its items
             for n, v in enumerate(val):
                 subtypehint = subtypehints[0 if is_ellipsis or not is_tuple else n]
                 val[n] = adapt_typehints(v, subtypehint, **adapt_kwargs)
@@ -904,6 +905,7 @@ def adapt_typehints(
             raise_unexpected_value(f"Expected a {typehint_origin}", val)
         if subtypehints is not None:
             val = list(val)  # do not modify the given list
+            adapt_kwargs["orig_val"] = None  # the original string is the one of the whole value, not of its items
             for n, v in enumerate(val):
                 if isinstance(prev_val, list) and len(prev_val) == len(val):
                     adapt_kwargs_n = {**deepcopy(adapt_kwargs), "prev_val": prev_val[n]}
@@ -926,6 +928,7 @@ def adapt_typehints(
         else:
             val = val.copy()  # do not modify the given dict
         if subtypehints is not None:
+            adapt_kwargs["orig_val"] = None  # the original string is the one of the whole value, not of its items
             if subtypehints[0] == int:
                 cast = str if serialize else int
                 val = {cast(k): v for k, v in val.items()}
